@@ -79,7 +79,7 @@ CLAIMED = {
             "Oracles are written from the property text; float32 magnitudes are small integers so arithmetic is exact; inputs outside the stated domain (inverted periods) are counted, not judged.",
             "DESIGN.md §4 C18"),
     "C19": ("online invariant + reference monitor over bounded-exhaustive and random sequences with a fake model clock; concurrent part with stress yields, atomic Modes() snapshots and folded Pull streams at quiescence",
-            "Runtime monitoring: all length-4 (thorough length-5) sequences over create/add/update/delete(±allow-missing)/set-active/change-active/clear-active on up to 4 modes through the Model API and the ElectricApi/MemorySettingsApi servers, random 100-step sequences through model, server, wrapped clients and mixes, and 2-4 goroutines issuing the operations concurrently; after every step (resp. in every atomic snapshot and at quiescence): at most one normal mode, active mode never deleted and always existing once changed, clear-active selects the normal mode, a switch to a different mode stamps the fake clock's current reading, delete of an absent mode NotFound unless allow-missing.",
+            "Runtime monitoring: all length-4 (thorough length-5) sequences over create/add/update/delete(±allow-missing)/set-active/change-active/clear-active on up to 4 modes through the Model API and the ElectricApi/MemorySettingsApi servers, random 100-step sequences through model, server, wrapped clients and mixes (switches also to the empty id), and 2-4 goroutines issuing the operations concurrently (mixes A/B over every operation, mix C made only of writers competing for the normal slot); after every step (resp. in every atomic snapshot and at quiescence): at most one normal mode, active mode never deleted and always existing once changed, clear-active selects the normal mode, a switch to a different mode stamps the fake clock's current reading, delete of an absent mode NotFound unless allow-missing.",
             "SetActiveMode start times and re-selecting the active mode are observed, not judged; documented return codes beyond the statement are counted only.",
             "DESIGN.md §4 C19"),
     "C20": ("online reference-model monitors: per-model executable specifications (set algebra, exact rational arithmetic, lookup tables, counters, fake clocks, content hashes) stepped in lock-step with the real models and servers",
